@@ -92,7 +92,20 @@ func (h subHook) run(ctx sdk.Context, kind string, ident string, n int64) error 
 	case "err":
 		return errors.New("scripted error")
 	case "panic":
-		panic("scripted panic")
+		// the values code panics with: a string, a plain error, a wrapped error, a runtime error, an arbitrary value
+		switch (len(h.w.calls) + int(n)) % 5 {
+		case 0:
+			panic("scripted panic")
+		case 1:
+			panic(errors.New("scripted panic with an error value"))
+		case 2:
+			panic(fmt.Errorf("scripted panic: %w", errors.New("wrapped cause")))
+		case 3:
+			var m map[string]int
+			m["x"] = 1 // runtime error: assignment to entry in nil map
+		default:
+			panic(struct{ a, b int }{1, 2})
+		}
 	case "oog":
 		// both panics the SDK's gas meters raise: limit exceeded, and the consumed counter overflowing
 		if len(h.w.calls)%2 == 0 {
